@@ -408,10 +408,31 @@ def r17_8(ctx):
     default, while `_was_set` survives; wherever the library uses a user value as something None cannot be (a key of the
     bool<->str tables, an argument of int()/float()/min()/max()) a presence test dominates the use, in the function or at
     every call site of a helper (menuconfig: change, reset, Load [O] reaches Kconfig._assigned_twice through a merging
-    load)."""
+    load); the Load action itself reports both kinds of failure load_config() has (OS error, KconfigError)."""
     from .common import optional_field_guarded
     optional_field_guarded(ctx, ["esp_kconfiglib.core", "esp_kconfiglib.report", "esp_menuconfig.model", "esp_menuconfig.formatting",
                                  "esp_menuconfig.app", "kconfserver.core"])
+    # the Load action reports what load_config() can raise on a user-chosen file: OS errors and KconfigError (undecodable file)
+    tl = ctx.repo.func(f"{MODEL}:MenuConfigState.try_load")
+    ctx.analysed(tl.qual)
+    calls = [n for n in ast.walk(tl.node) if isinstance(n, ast.Call) and ast.unparse(n.func).endswith(".load_config")]
+    construct = "MenuConfigState.try_load/load_config() failures are reported, not raised"
+    covered = set()
+    for c in calls:
+        p = ctx.repo.parent(c)
+        while p is not None and p is not tl.node:
+            if isinstance(p, ast.Try) and any(c is x for b in p.body for x in ast.walk(b)):
+                for h in p.handlers:
+                    if h.type is None:
+                        covered |= {"OSError", "KconfigError"}
+                    else:
+                        for t in (h.type.elts if isinstance(h.type, ast.Tuple) else [h.type]):
+                            nm = ast.unparse(t).split(".")[-1]
+                            covered |= {"OSError"} if nm in ("EnvironmentError", "OSError", "IOError") else {"OSError", "KconfigError"} if nm in ("Exception", "BaseException") else {nm}
+            p = ctx.repo.parent(p)
+    missing = sorted({"OSError", "KconfigError"} - covered)
+    (ctx.bad(construct, f"{missing} raised by load_config() on the chosen file (missing file / a file that is not valid UTF-8) escapes into the application",
+             tl.loc(calls[0]) if calls else tl.loc()) if missing or not calls else ctx.ok(construct, tl.loc(calls[0])))
 
 
 def rules():
